@@ -276,9 +276,11 @@ impl SrcPool {
       }
       // a source on which the seed rules of corpus/rules have matches
       texts.push(match ext {
-        "js" | "ts" | "tsx" => "let a = [1, 'x', 2];\nfoo(a, b);\nclass A { set b(c) {} }\nif (x) { return 1 }\nvar o = {k: 1, j: 2};\nSome(1);\n((3));\nb = c + d;\n".to_string(),
-        "py" => "if something:\n    class B():\n        def replace(self):\n            print(self1)\nfoo(a, b)\n".to_string(),
-        "rs" => "fn main() { let a = Some(1); x.unwrap(); foo(a, b); }\n".to_string(),
+        // the last line of each: identifiers mixing upper / lower case letters of different UTF-8
+        // widths (string-case conversions split words at case changes by byte offsets)
+        "js" | "ts" | "tsx" => "let a = [1, 'x', 2];\nfoo(a, b);\nclass A { set b(c) {} }\nif (x) { return 1 }\nvar o = {k: 1, j: 2};\nSome(1);\n((3));\nb = c + d;\nlet DÉJÀvu = ÀÉa + XMLHttp + ABé + ÀBc + aÉ + ÉÉÉ + x_Éy + ΑΒγ + AB𝐚 + 𝐀𝐁c + éA + ǅx;\n".to_string(),
+        "py" => "if something:\n    class B():\n        def replace(self):\n            print(self1)\nfoo(a, b)\nDÉJÀvu = ÀÉa + XMLHttp + ABé + ÀBc + aÉ + ΑΒγ\n".to_string(),
+        "rs" => "fn main() { let a = Some(1); x.unwrap(); foo(a, b); let DÉJÀvu = ÀÉa + XMLHttp + ABé + ÀBc; }\n".to_string(),
         "go" => "package main\nfunc main() { fmt.Println(1, 2) }\n".to_string(),
         "html" => "<div onclick=\"f()\" class=\"a\"></div><script>let a = 1</script>\n".to_string(),
         _ => "a { color: red; }\n".to_string(),
